@@ -9,6 +9,8 @@ From ZV.Codec Require Import Bytes.
 From ZV.Stream Require Import DStreamModel CStreamModel CStreamProofs StreamInst.
 From ZV.Stream Require Import DStreamSpec DStreamCont DStreamProofs DStreamSpecLink DStreamRefine.
 From ZV.Stream Require Import WindowModel WindowProofs.
+From ZV.Codec Require Import Frame Encode.
+From ZV.Stream Require Import StoreStream StoreStreamProofs.
 Import ListNotations.
 Local Open Scope N_scope.
 
@@ -192,3 +194,46 @@ Theorem C02_window_extdict_disjoint :
     (w_dictBase w' + Z.of_N i < ip \/ ip + Z.of_N n <= w_dictBase w' + Z.of_N i)%Z.
 Proof. exact window_extdict_disjoint. Qed.
 Print Assumptions C02_window_extdict_disjoint.
+
+(* ================= end to end with a concrete block compressor ================= *)
+
+(* the hypothesis of C02_cstream_roundtrip discharged: with the store-only block compressor (frame header, raw blocks of at
+   most the block size, last-block bit, XXH64 checksum - what ZSTD_compressContinue / ZSTD_compressEnd emit for
+   incompressible data, Codec/Encode.v) every complete chunk list gives ONE frame that the reference decoder R decodes,
+   with nothing left over, to the concatenation of the chunks *)
+Theorem C02_store_compressor_meets_hypothesis :
+  forall (cs : sst) (fc : fconf) (pl : N) (chunks : list (bytes * bool)),
+  complete chunks -> R_whole (outs sst store_chunk (store_begin cs fc pl) chunks) = Some (chunks_in chunks).
+Proof. exact store_stream_decodes. Qed.
+Print Assumptions C02_store_compressor_meets_hypothesis.
+
+(* no hypothesis about the compressor left: EVERY history of ZSTD_compressStream2 calls (any input slicing, any output
+   capacities, any directives, any per-frame window / block size) on the buffering model around the store compressor that
+   ends with a completed frame has emitted a concatenation of frames each of which R decodes to the corresponding part of
+   the consumed input *)
+Theorem C02_store_stream_round_trip :
+  forall (P : kparams) (X : bytes) (cs : sst) (calls : list kcall) (k' : kstate sst) (pos' : N) (emitted' : bytes),
+  calls_ok calls ->
+  krun sst store_begin store_chunk P (k_new cs) X 0 calls [] = Some (k', pos', emitted') ->
+  k_stage k' = KInit -> k_frameEnded k' = true -> k_held k' = [] ->
+  exists frames : list (bytes * bytes),
+    tk pos' X = concat (map fst frames) /\ emitted' = concat (map snd frames) /\
+    forall io, In io frames -> R_whole (snd io) = Some (fst io).
+Proof. exact store_stream_roundtrip. Qed.
+Print Assumptions C02_store_stream_round_trip.
+
+(* a history meeting the premises: 3 bytes offered with room for 2, a flush, 2 more bytes with ZSTD_e_end and room for 7,
+   a final ZSTD_e_end; the emitted frame is header + raw block [1;2;3] + last raw block [4;5] + checksum *)
+Example C02_store_stream_history :
+  let fc := {| fc_windowLog := 17; fc_maxBlock := 131072; fc_pledge := UNKNOWN |} in
+  let calls := [ {| kc_n := 3; kc_cap := 2; kc_dir := DirContinue; kc_fc := fc |};
+                 {| kc_n := 0; kc_cap := 100; kc_dir := DirFlush; kc_fc := fc |};
+                 {| kc_n := 2; kc_cap := 7; kc_dir := DirEnd; kc_fc := fc |};
+                 {| kc_n := 0; kc_cap := 100; kc_dir := DirEnd; kc_fc := fc |} ] in
+  match krun sst store_begin store_chunk {| kp_stableIn := false; kp_stableOut := false; kp_magicless := false |}
+             (k_new store_new) [1; 2; 3; 4; 5] 0 calls [] with
+  | Some (k, pos, em) => k_stage k = KInit /\ k_frameEnded k = true /\ k_held k = [] /\ pos = 5 /\
+      em = [40; 181; 47; 253; 4; 56; 24; 0; 0; 1; 2; 3; 17; 0; 0; 4; 5; 47; 214; 192; 132] /\ R_whole em = Some [1; 2; 3; 4; 5]
+  | None => False
+  end.
+Proof. vm_compute. repeat split; reflexivity. Qed.
